@@ -70,11 +70,13 @@ type fileCtx struct {
 	edits  []edit
 	seq    int
 	rep    *Report
+	src    []byte
 	pkgUse map[string][2]int // import local name -> [total uses, rewritten uses]
 	isMain bool
 	hasMain bool
 	handledChanTypes map[*ast.ChanType]bool
 	needSimrt bool
+	skip [][2]token.Pos // source ranges already replaced as a whole (select comm clauses)
 }
 
 // GoCmd is the go command used for `go list` (must be the toolchain the
@@ -348,6 +350,7 @@ func (fc *fileCtx) siteID(pos token.Pos, kind string, t types.Type) string {
 }
 
 func (fc *fileCtx) rewrite(src []byte) []byte {
+	fc.src = src
 	// count uses of imported packages
 	ast.Inspect(fc.file, func(n ast.Node) bool {
 		if se, ok := n.(*ast.SelectorExpr); ok {
@@ -477,7 +480,19 @@ var syncTypes = map[string]string{
 	"Mutex": "Mutex", "RWMutex": "RWMutex", "WaitGroup": "WaitGroup", "Once": "Once",
 }
 
+func (fc *fileCtx) skipped(n ast.Node) bool {
+	for _, r := range fc.skip {
+		if n.Pos() >= r[0] && n.End() <= r[1] {
+			return true
+		}
+	}
+	return false
+}
+
 func (fc *fileCtx) visit(n ast.Node, parent ast.Node, d int) {
+	if fc.skipped(n) {
+		return
+	}
 	switch n := n.(type) {
 	case *ast.FuncDecl:
 		if n.Body != nil {
@@ -515,7 +530,11 @@ func (fc *fileCtx) visit(n ast.Node, parent ast.Node, d int) {
 			fc.count("chan_range")
 		}
 	case *ast.SelectStmt:
-		fc.unsupported(n.Pos(), "select statement")
+		if _, labeled := parent.(*ast.LabeledStmt); labeled {
+			fc.unsupported(n.Pos(), "labeled select statement")
+			return
+		}
+		fc.rewriteSelect(n, d)
 	case *ast.GoStmt:
 		fc.rewriteGo(n, d)
 	case *ast.SendStmt:
@@ -704,4 +723,142 @@ func (fc *fileCtx) rewriteGo(n *ast.GoStmt, d int) {
 		fc.replace(call.Lparen, call.Lparen+1, ", ", d, true)
 	}
 	fc.count("go")
+}
+
+// simpleExpr reports whether the source text of e can be copied verbatim into
+// generated code: nothing inside it is subject to another rewrite.
+func (fc *fileCtx) simpleExpr(e ast.Expr) bool {
+	ok := true
+	ast.Inspect(e, func(n ast.Node) bool {
+		switch n := n.(type) {
+		case *ast.FuncLit, *ast.ChanType:
+			ok = false
+		case *ast.UnaryExpr:
+			if n.Op == token.ARROW {
+				ok = false
+			}
+		case *ast.CallExpr:
+			if id, isID := n.Fun.(*ast.Ident); isID {
+				if _, isBuiltin := fc.info.Uses[id].(*types.Builtin); isBuiltin && len(n.Args) > 0 {
+					if _, isChan := under(fc.typeOf(n.Args[0])).(*types.Chan); isChan {
+						ok = false
+					}
+				}
+			}
+		case *ast.SelectorExpr:
+			if path, _, isPkg := fc.pkgOf(n.X); isPkg {
+				switch path {
+				case "os", "sync", "time", "runtime", "maps", "context", "golang.org/x/sync/errgroup":
+					ok = false
+				}
+			}
+		}
+		return ok
+	})
+	return ok
+}
+
+func (fc *fileCtx) srcOf(src []byte, n ast.Node) string {
+	return string(src[fc.off(n.Pos()):fc.off(n.End())])
+}
+
+// rewriteSelect turns
+//
+//	select { case v := <-a: A; case b <- x: B; default: D }
+//
+// into
+//
+//	{ s0 := simrt.NewRecv(a); s1 := simrt.NewSend(b, x)
+//	  switch simrt.Select(true, s0, s1) { case 0: v := s0.Value(); A; case 1: B; default: D } }
+//
+// Channel operands and send values are evaluated once, in source order, on
+// entering the statement, as the language specifies.
+func (fc *fileCtx) rewriteSelect(n *ast.SelectStmt, d int) {
+	src := fc.src
+	tag := fmt.Sprintf("sel%d_%d", fc.line(n.Pos()), fc.tf.Position(n.Pos()).Column)
+	var pro strings.Builder
+	pro.WriteString("{ ")
+	var names []string
+	hasDefault := false
+	type clauseEdit struct {
+		cc   *ast.CommClause
+		text string
+	}
+	var ces []clauseEdit
+	idx := 0
+	for _, st := range n.Body.List {
+		cc := st.(*ast.CommClause)
+		if cc.Comm == nil {
+			hasDefault = true
+			continue
+		}
+		name := fmt.Sprintf("%s_%d", tag, idx)
+		var recvX ast.Expr
+		head := ""
+		switch c := cc.Comm.(type) {
+		case *ast.SendStmt:
+			if !fc.simpleExpr(c.Chan) || !fc.simpleExpr(c.Value) {
+				fc.unsupported(c.Pos(), "select case with a nested channel operation or seam call")
+				return
+			}
+			fmt.Fprintf(&pro, "%s := simrt.NewSend(%s, %s); ", name, fc.srcOf(src, c.Chan), fc.srcOf(src, c.Value))
+		case *ast.ExprStmt:
+			u, ok := ast.Unparen(c.X).(*ast.UnaryExpr)
+			if !ok || u.Op != token.ARROW {
+				fc.unsupported(c.Pos(), "select case of unknown form")
+				return
+			}
+			recvX = u.X
+		case *ast.AssignStmt:
+			if len(c.Rhs) != 1 {
+				fc.unsupported(c.Pos(), "select case of unknown form")
+				return
+			}
+			u, ok := ast.Unparen(c.Rhs[0]).(*ast.UnaryExpr)
+			if !ok || u.Op != token.ARROW {
+				fc.unsupported(c.Pos(), "select case of unknown form")
+				return
+			}
+			recvX = u.X
+			var lhs []string
+			for _, l := range c.Lhs {
+				if !fc.simpleExpr(l) {
+					fc.unsupported(c.Pos(), "select case assigning to a complex expression")
+					return
+				}
+				lhs = append(lhs, fc.srcOf(src, l))
+			}
+			m := "Value"
+			if len(lhs) == 2 {
+				m = "Value2"
+			}
+			head = fmt.Sprintf(" %s %s %s.%s();", strings.Join(lhs, ", "), c.Tok.String(), name, m)
+		default:
+			fc.unsupported(cc.Pos(), "select case of unknown form")
+			return
+		}
+		if recvX != nil {
+			if !fc.simpleExpr(recvX) {
+				fc.unsupported(recvX.Pos(), "select case with a nested channel operation or seam call")
+				return
+			}
+			fmt.Fprintf(&pro, "%s := simrt.NewRecv(%s); ", name, fc.srcOf(src, recvX))
+		}
+		names = append(names, name)
+		ces = append(ces, clauseEdit{cc: cc, text: fmt.Sprintf("case %d:%s", idx, head)})
+		idx++
+	}
+	fmt.Fprintf(&pro, "switch simrt.Select(%v", hasDefault)
+	for _, nm := range names {
+		pro.WriteString(", " + nm)
+	}
+	pro.WriteString(") {")
+	// `select {` -> prologue
+	fc.replace(n.Select, n.Body.Lbrace+1, pro.String(), d, false)
+	for _, ce := range ces {
+		fc.replace(ce.cc.Pos(), ce.cc.Colon+1, ce.text, d, false)
+		fc.skip = append(fc.skip, [2]token.Pos{ce.cc.Pos(), ce.cc.Colon + 1})
+	}
+	fc.insertAfter(n.Body.Rbrace+1, "}", d)
+	fc.count("select")
 }
